@@ -232,9 +232,13 @@ def _uf_reference(sol_a, sol_v, sol_d, pg, uf, m, b, k, nrb, rf, n, nt):
     L = S.lift
     out = {nm: [[None] * nt for _ in range(n)] for nm in ("a", "v", "d", "ds", "dd")}
     mp.mp.dps = 60
-    if el:
+    if el and np.ndim(k) == 1:
+        # diagonal stiffness: the code divides by k; the inverse is taken exactly (a 60-digit decimal of 1/300 is not 1/300)
+        KiQ = [[(Fraction(1) / Fraction(float(k[i])) if i == j_ else Fraction(0)) for j_ in el] for i in el]
+    elif el:
         Kel = mp.matrix([[K[i, j] for j in el] for i in el])
         Ki = Kel ** -1
+        KiQ = [[O._toQ(Ki[a_, c_]) for c_ in range(len(el))] for a_ in range(len(el))]
     for j in range(nt):
         for i in range(n):
             if i < nrb:
@@ -255,8 +259,8 @@ def _uf_reference(sol_a, sol_v, sol_d, pg, uf, m, b, k, nrb, rf, n, nt):
                          for q in el]) for i in el}
         F = {i: av[i] + z3.Sum([z3.RealVal(Fraction(float(K[i, q]))) * L(sol_d[q, j]) for q in el]) for i in el}
         for a_, i in enumerate(el):
-            out["ds"][i][j] = euf * suf * z3.Sum([z3.RealVal(O._toQ(Ki[a_, c_])) * F[q] for c_, q in enumerate(el)])
-            out["dd"][i][j] = -euf * duf * z3.Sum([z3.RealVal(O._toQ(Ki[a_, c_])) * av[q] for c_, q in enumerate(el)])
+            out["ds"][i][j] = euf * suf * z3.Sum([z3.RealVal(KiQ[a_][c_]) * F[q] for c_, q in enumerate(el)])
+            out["dd"][i][j] = -euf * duf * z3.Sum([z3.RealVal(KiQ[a_][c_]) * av[q] for c_, q in enumerate(el)])
         for i in range(n):
             out["d"][i][j] = out["ds"][i][j] + out["dd"][i][j]
     return out
